@@ -63,8 +63,8 @@ class Ctx:
         elif kind == 'mul':
             self.topo, self.geom = mesh.newrectilinear(nodes, periodic=list(periodic))
         elif kind == 'mp':
-            k = shape[1]    # elements per patch per direction; two patches side by side, the second one rotated
-            self.topo, self.geom = mesh.multipatch(patches=[[0, 1, 2, 3], [5, 4, 3, 2]],
+            k = shape[1]    # elements per patch per direction; two patches side by side
+            self.topo, self.geom = mesh.multipatch(patches=[[0, 1, 2, 3], [2, 3, 4, 5]],
                                                    patchverts=[[0, 0], [0, k], [k, 0], [k, k], [2 * k, 0], [2 * k, k]], nelems=k)
         else:
             topo, geom = mesh.unitsquare(shape[0], kind)
